@@ -2,9 +2,26 @@
 
 package forwarder
 
-import "github.com/free5gc/go-upf/internal/forwarder/perio"
+import (
+	"net"
+
+	"github.com/free5gc/go-upf/internal/forwarder/perio"
+)
 
 func zzYield()
+func zzSentCountOn(c *net.UDPConn) int
+func zzSentBytesOn(c *net.UDPConn, i int) []byte
+func zzSentAddrOn(c *net.UDPConn, i int) net.Addr
+
+var zzGTP *net.UDPConn
+
+// zzGTPConn: the GTP-U socket of the link (engine: an inert value; datagrams are logged per socket)
+func zzGTPConn() *net.UDPConn {
+	if zzGTP == nil {
+		zzGTP = &net.UDPConn{}
+	}
+	return zzGTP
+}
 
 // zzPerio: the periodic-report server the driver registers URRs with. Its Serve loop is
 // not started by default; harnesses that need it start it themselves.
